@@ -22,8 +22,8 @@ MANIFEST = {
                  "and of every post-flush crash point, executed for real with SIGKILL, against an accepted-frames model",
     "text": "All 16 ordered partitions of 5 frames (thorough: n = 1..5) into write calls x 11 streaming formats (+ HDF5 append "
             "mode) x {cell, no cell} x {time, no time} are written through the real file objects and compared after close "
-            "with the one-shot file (frames, times, cells, loaded with mdtraj). One ragged write of each kind at every "
-            "position of every partition must raise and leave a file holding exactly the accepted frames. For HDF5, NetCDF, "
+            "with the one-shot file (frames, times, cells, loaded with mdtraj). Cells also change SHAPE per frame (rectangular/sheared) where the format stores angles. One ragged write of each kind at every "
+            "position of every partition must raise and leave a file holding exactly the accepted frames; then the caller closes, retries the same write (must be refused again) or continues with the well-formed writes (must equal one-shot). For HDF5, NetCDF, "
             "DCD, XTC and HDF5 append mode every (partition, k) crash point after write+flush is executed in a forked child that SIGKILLs itself; "
             "the parent must load exactly the k-prefix. Exhaustive over the stated histories and crash points.",
     "note": "Process kill, not power loss (page cache survives). DCD has no flush(): judged after write() returns, as its "
